@@ -1647,6 +1647,8 @@ BTree_maxminKey(BTree *self, PyObject *args, int min)
     {
         bucket = BTree_lastBucket(self);
         PER_UNUSE(self);
+        UNLESS (bucket)
+            return NULL;
         UNLESS (PER_USE(bucket))
         {
             Py_DECREF(bucket);
